@@ -61,6 +61,7 @@ class Ctx(object):
         self.solver.set('timeout', query_timeout_ms)
         self.query_timeout_ms = query_timeout_ms
         self.solver.set('random_seed', seed)
+        self.seed = seed
         self.prefix = list(prefix)
         self.decisions = []
         self.pending = []
@@ -75,6 +76,7 @@ class Ctx(object):
         self._fixed = {}
         self.numpy_division = False  # harness switch: numpy 0-division
         self.max_concretize = 64
+        self.var_bounds = {}
         self.eager_fp = False
 
     # -- variables ---------------------------------------------------------
@@ -87,6 +89,8 @@ class Ctx(object):
     def int(self, name, lo=None, hi=None):
         c = self._reg(name, z3.Int(name))
         v = SymInt(c)
+        if lo is not None and hi is not None:
+            self.var_bounds[c.get_id()] = (lo, hi)
         # bounds of a fresh variable are satisfiable by construction
         if lo is not None:
             self.assume(c >= lo, check=False)
@@ -136,6 +140,20 @@ class Ctx(object):
             raise PathAbort()
         if r == 'unknown':
             self.unknown_feasibility = True
+
+    def require(self, cond, what):
+        """a bound of the *model* (not of the property): if the code under
+        analysis can leave it on this path the path must not silently
+        disappear -- it is reported (Candidate -> inconclusive unless replay
+        confirms a violation); otherwise the bound is assumed"""
+        cond = _b(cond)
+        if z3.is_true(z3.simplify(cond)):
+            return
+        r = self._check(z3.Not(cond))
+        if r != 'unsat':
+            raise Candidate('model bound left: ' + what)
+        self.solver.add(cond)
+        self.pc.append(cond)
 
     def _record(self, entry):
         self.decisions.append(entry)
@@ -289,15 +307,22 @@ class Ctx(object):
                 return r, None
             # 'unknown' from the eager pipeline (e.g. the SAT tactic gives
             # up on model reconstruction): ask the default solver too
-        self.solver.push()
-        try:
-            self.solver.add(z3.Not(prop))
-            r = self._check()
-            if r == 'sat':
-                return 'sat', self.model_inputs(self.solver.model())
-            return r, None
-        finally:
-            self.solver.pop()
+        # a fresh (non-incremental) solver per validity query: z3's
+        # incremental mode uses a weaker configuration and was measured
+        # 100x slower on the div/mod-heavy date arithmetic
+        fs = z3.Solver()
+        fs.set('timeout', self.query_timeout_ms)
+        fs.set('random_seed', self.seed)
+        for a in self.solver.assertions():
+            fs.add(a)
+        fs.add(z3.Not(prop))
+        t0 = time.time()
+        r = str(fs.check())
+        self.solver_s += time.time() - t0
+        self.queries += 1
+        if r == 'sat':
+            return 'sat', self.model_inputs(fs.model())
+        return r, None
 
 
 def pyval(v):
@@ -569,6 +594,129 @@ def _floor_real(e):
     return z3.ToInt(e)  # z3 ToInt is floor
 
 
+_INF = float('inf')
+
+
+def _ibounds(e, depth=0):
+    """cheap interval of a z3 Int term from the declared bounds of the
+    symbolic inputs: (lo, hi) with +-inf for unknown"""
+    if depth > 40:
+        return -_INF, _INF
+    if z3.is_int_value(e):
+        v = e.as_long()
+        return v, v
+    k = e.decl().kind()
+    ch = [e.arg(i) for i in range(e.num_args())]
+    if k == z3.Z3_OP_UNINTERPRETED and not ch:
+        b = getattr(CUR, 'var_bounds', {}).get(e.get_id()) if CUR else None
+        return b if b else (-_INF, _INF)
+    bs = [_ibounds(c, depth + 1) for c in ch]
+    if k == z3.Z3_OP_ADD:
+        return sum(b[0] for b in bs), sum(b[1] for b in bs)
+    if k == z3.Z3_OP_SUB and len(bs) == 2:
+        return bs[0][0] - bs[1][1], bs[0][1] - bs[1][0]
+    if k == z3.Z3_OP_UMINUS:
+        return -bs[0][1], -bs[0][0]
+    if k == z3.Z3_OP_MUL and len(ch) == 2:
+        for i in (0, 1):
+            if z3.is_int_value(ch[i]):
+                c = ch[i].as_long()
+                lo, hi = bs[1 - i]
+                if c == 0:
+                    return 0, 0
+                v = [c * lo if lo not in (-_INF, _INF) else (
+                    -_INF if (c > 0) == (lo < 0) else _INF),
+                    c * hi if hi not in (-_INF, _INF) else (
+                    _INF if (c > 0) == (hi > 0) else -_INF)]
+                return min(v), max(v)
+        return -_INF, _INF
+    if k == z3.Z3_OP_IDIV and z3.is_int_value(ch[1]) and \
+            ch[1].as_long() > 0:
+        c = ch[1].as_long()
+        lo, hi = bs[0]
+        return (lo // c if lo != -_INF else -_INF,
+                hi // c if hi != _INF else _INF)
+    if k == z3.Z3_OP_MOD and z3.is_int_value(ch[1]) and ch[1].as_long() > 0:
+        c = ch[1].as_long()
+        lo, hi = bs[0]
+        if lo != -_INF and hi != _INF and lo // c == hi // c:
+            return lo % c, hi % c
+        return 0, c - 1
+    if k == z3.Z3_OP_ITE:
+        return min(bs[1][0], bs[2][0]), max(bs[1][1], bs[2][1])
+    return -_INF, _INF
+
+
+def _linear_terms(e):
+    """[(coef, atom)] and constant of a z3 Int term, atoms being its
+    non-linear subterms (variables, div, mod, ite ...)"""
+    terms, const = [], 0
+
+    def walk(t, mult):
+        nonlocal const
+        if z3.is_int_value(t):
+            const += mult * t.as_long()
+            return
+        k = t.decl().kind()
+        if k == z3.Z3_OP_ADD:
+            for i in range(t.num_args()):
+                walk(t.arg(i), mult)
+            return
+        if k == z3.Z3_OP_SUB and t.num_args() == 2:
+            walk(t.arg(0), mult)
+            walk(t.arg(1), -mult)
+            return
+        if k == z3.Z3_OP_UMINUS:
+            walk(t.arg(0), -mult)
+            return
+        if k == z3.Z3_OP_MUL and t.num_args() == 2:
+            a, b = t.arg(0), t.arg(1)
+            if z3.is_int_value(a):
+                walk(b, mult * a.as_long())
+                return
+            if z3.is_int_value(b):
+                walk(a, mult * b.as_long())
+                return
+        terms.append((mult, t))
+    walk(e, 1)
+    return terms, const
+
+
+def _divmod_const(a, c):
+    """(quotient, remainder) z3 terms of Python floor division of the Int
+    term a by the positive constant c, simplified with interval knowledge:
+    a = c*M + R with the interval of R inside one block of length c gives
+    a // c = M + const and a % c = R - c*const (both linear).  Falls back to
+    z3's div/mod."""
+    terms, const = _linear_terms(a)
+    M, R = [], []
+    for coef, atom in terms:
+        if coef % c == 0:
+            M.append((coef // c, atom))
+        else:
+            R.append((coef, atom))
+    Mc, Rc = const // c, const % c
+    rlo = rhi = Rc
+    for coef, atom in R:
+        lo, hi = _ibounds(atom)
+        vals = (coef * lo if abs(lo) != _INF else
+                (-_INF if (coef > 0) == (lo < 0) else _INF),
+                coef * hi if abs(hi) != _INF else
+                (_INF if (coef > 0) == (hi > 0) else -_INF))
+        rlo += min(vals)
+        rhi += max(vals)
+    if abs(rlo) != _INF and abs(rhi) != _INF and rlo // c == rhi // c:
+        q0 = rlo // c
+        q = z3.IntVal(Mc + q0)
+        for coef, atom in M:
+            q = q + coef * atom
+        r = z3.IntVal(Rc - c * q0)
+        for coef, atom in R:
+            r = r + coef * atom
+        return z3.simplify(q), z3.simplify(r)
+    return a / c, a % c
+
+
 def _floordiv_int(a, b):
     """Python floor division on z3 Ints (z3 div rounds toward -inf only for
     positive divisors)"""
@@ -576,13 +724,32 @@ def _floordiv_int(a, b):
     if z3.is_int_value(sb):
         bv = sb.as_long()
         if bv > 0:
-            return a / b
+            return _divmod_const(a, bv)[0]
         if bv < 0:
             return (-a) / (-b)
         raise ZeroDivisionError('integer division or modulo by zero')
     if cur().branch(b == 0):
         raise ZeroDivisionError('integer division or modulo by zero')
     return z3.If(b > 0, a / b, (-a) / (-b))
+
+
+def _ratio_of(x):
+    """(int z3 expr, positive int) such that x == expr/den exactly, or None"""
+    if isinstance(x, SymInt):
+        return x.e, 1
+    if isinstance(x, SymReal):
+        return x.ratio
+    if isinstance(x, bool):
+        return None
+    if _is_int_like(x):
+        return z3.IntVal(int(x)), 1
+    if isinstance(x, float) and x == x and abs(x) < 2.0 ** 62:
+        f = fractions.Fraction(x)
+        if f.denominator < 2 ** 40:
+            return z3.IntVal(f.numerator), f.denominator
+    if isinstance(x, fractions.Fraction):
+        return z3.IntVal(x.numerator), x.denominator
+    return None
 
 
 class _SymNum(Sym):
@@ -597,25 +764,42 @@ class _SymNum(Sym):
             a, b = b, a
         return _wrap(k, f(a, b))
 
+    def _addsub(self, o, sign, rev):
+        f = (lambda a, b: a + b) if sign > 0 else (lambda a, b: a - b)
+        r = self._bin(o, f, rev)
+        if isinstance(r, SymReal):
+            ra, rb = _ratio_of(self), _ratio_of(o)
+            if ra is not None and rb is not None:
+                if rev:
+                    ra, rb = rb, ra
+                (na, da), (nb, db) = ra, rb
+                import math
+                den = da * db // math.gcd(da, db)
+                num = na * (den // da) + sign * nb * (den // db)
+                r.ratio = (num, den)
+        return r
+
     def __add__(self, o):
-        return self._bin(o, lambda a, b: a + b)
+        return self._addsub(o, 1, False)
 
     def __radd__(self, o):
-        return self._bin(o, lambda a, b: a + b, True)
+        return self._addsub(o, 1, True)
 
     def __sub__(self, o):
-        return self._bin(o, lambda a, b: a - b)
+        return self._addsub(o, -1, False)
 
     def __rsub__(self, o):
-        return self._bin(o, lambda a, b: a - b, True)
+        return self._addsub(o, -1, True)
 
     def __mul__(self, o):
         r = self._bin(o, lambda a, b: a * b)
-        rt = getattr(self, 'ratio', None)
-        if rt is not None and isinstance(r, SymReal) and (
-                _is_int_like(o) or (isinstance(o, float) and
-                                    o == int(o) and abs(o) < 2.0 ** 62)):
-            r.ratio = (rt[0] * int(o), rt[1])
+        rt = _ratio_of(self)
+        ro = _ratio_of(o) if not isinstance(o, Sym) else None
+        if rt is not None and ro is not None and isinstance(r, SymReal):
+            import math
+            cn = z3.simplify(ro[0]).as_long()
+            g = math.gcd(abs(cn), rt[1]) or 1
+            r.ratio = (rt[0] * (cn // g), (rt[1] // g) * ro[1])
         return r
 
     def __rmul__(self, o):
@@ -646,6 +830,14 @@ class _SymNum(Sym):
             a, b = b, a
         if ratio is not None:
             return SymReal(a / b, ratio)
+        if not rev:
+            rt, ro = _ratio_of(self), (_ratio_of(o)
+                                       if not isinstance(o, Sym) else None)
+            if rt is not None and ro is not None:
+                cn = z3.simplify(ro[0]).as_long()
+                if cn > 0:
+                    # (n/d) / (cn/cd) = n*cd / (d*cn)
+                    return SymReal(a / b, (rt[0] * ro[1], rt[1] * cn))
         sb = z3.simplify(b)
         if not z3.is_rational_value(sb) or sb.numerator_as_long() == 0:
             if cur().branch(b == 0):
@@ -675,6 +867,10 @@ class _SymNum(Sym):
                     if cur().branch(b == 0):
                         # numpy integer semantics: x//0 and x%0 are 0
                         return SymInt(z3.IntVal(0))
+            sb_ = z3.simplify(b)
+            if z3.is_int_value(sb_) and sb_.as_long() > 0:
+                qq, rr = _divmod_const(a, sb_.as_long())
+                return SymInt(rr) if mod else SymInt(qq)
             q = _floordiv_int(a, b)
             return SymInt(a - q * b) if mod else SymInt(q)
         sb = z3.simplify(b)
